@@ -98,7 +98,7 @@ theorem rc_refines (dna : Bool) (r r' : Row) (h : RowWF r) (hr : rowRc dna r = .
 example : (rowRc true (rowOfString "-AC--G".toList)).toOption.map gapped = some "C--GT-".toList := by decide
 
 /-- **History theorem** (`aln_refines`): for every alignment with well-formed rows and every finite
-sequence of slice / int / rc / take_seqs / take_positions / to_rna / to_dna / `+` operations, if the
+sequence of slice / int / rc / take_seqs / take_positions (both polarities) / to_rna / to_dna / `+` operations, if the
 annotatable class completes the history, the rows it then shows are exactly the rows obtained by
 running the same history on the plain gapped strings (which is what the dense class does), and all
 rows are still well formed.  By induction over the operation list. -/
@@ -124,7 +124,7 @@ theorem array_annotatable_agree_history (ops : List AOp) (dna : Bool) (d : AlnD)
   have := (run_refines ops dna (ofStrings d) hops hwf a' dna' h).2
   rwa [array_annotatable_agree] at this
 
-example : (∀ op ∈ [AOp.slice (some 0) (some 9), AOp.int (-1)], OpOK op) := by simp [OpOK]
+example : (∀ op ∈ [AOp.slice (some 0) (some 9), AOp.int (-1), AOp.rc, AOp.takePositions [2, 0] true], OpOK op) := by simp [OpOK]
 
 /-- **Through the real view arithmetic (C01)**: keep each row's data as the C01 sequence model
 (parent string + slice record `start/stop/step`, complemented on display when reversed) instead of
@@ -142,7 +142,7 @@ example : (runV ⟨fromGapped ("A-CG-T".toList.map isGap), SeqWrap.ofString "ACG
       [.slice (some 1) (some 9), .rc, .slice (some 1) none]).toOption.map (fun r => gapped (r.toRow (comp true)))
     = some "-CG-".toList := by decide
 
-/- FULL STATEMENT (not proved): the same history theorem including `take_positions(negate=True)`,
+/- FULL STATEMENT (not proved): the same history theorem including
    the `keep` blocks of `filtered()` (multi-span `joined_segments`), and the error clause (both
    classes raise IndexError together; a negative slice bound below -len is refused by the annotatable
    class but clamped by the dense one).  Those are covered by the correspondence check and the
